@@ -413,6 +413,10 @@ def _call_order(fn: ast.FunctionDef) -> list[str]:
     return [e[2] for e in sorted(ev)]
 
 
+def _before(order: list[str], a: str, b: str) -> bool:
+    return a in order and b in order and order.index(a) < order.index(b)
+
+
 def _method_binding(st_tree: ast.Module, as_tree: ast.Module, call_aad: dict[str, object]) -> dict[str, bool]:
     rec = _func(as_tree, "_unpack_and_recover_state")
     res = _func(as_tree, "_resolve_call_from_token")
@@ -439,6 +443,8 @@ def _method_binding(st_tree: ast.Module, as_tree: ast.Module, call_aad: dict[str
         "recover_arg": has_call_prefix(exch, "_unpack_and_recover_state", "method_name")
         and has_call_prefix(rec, "_resolve_call_from_token", "method_name"),
         "check": "method_check" in _recover_order(rec),
+        # … and it is made on the hit branch, before anything decodes the state or calls a hook
+        "check_before_decode": "hit:method_check" in _hit_branch(rec) and _before(_recover_order(rec), "method_check", "resolve_state_cls"),
     }
 
 
